@@ -469,6 +469,15 @@ class Builtins:
         """sum_{j<n} fn(j) as an uninterpreted function with its defining axioms (math ints / exact floats)."""
         cx = self.cx
         if kind == "int":
+            probe = z3.Int("arrsum!probe")
+            t = fn(probe)
+            if z3.is_app(t) and t.decl().kind() == z3.Z3_OP_SELECT and t.arg(1).eq(probe) and not _mentions(t.arg(0), probe):
+                # sum of an array segment: canonical term arr_sum(A, n), so that contracts can name the same sum
+                res = SInt(arr_sum(t.arg(0), to_term_int(n)))
+                S = lambda k, A=t.arg(0): arr_sum(A, k)   # noqa: E731
+                cx.assume(arr_sum(t.arg(0), z3.IntVal(0)) == 0)
+                cx.ghost.setdefault("sums", []).append({"S": S, "fn": fn, "n": to_term_int(n), "src": src, "res": res})
+                return res
             S = cx.func("Sum", z3.IntSort(), z3.IntSort())
             j = z3.Int(cx._name("j"))
             # S is specified by S(0) = 0 and S(k+1) = S(k) + fn(k); only the instances asked for by the contract
@@ -776,6 +785,8 @@ class Builtins:
             return SList(obj.items[lo:hi])
         if isinstance(obj, (tuple, str, bytes)) and all(isinstance(x, (int, type(None))) for x in (lo, hi)):
             return obj[lo:hi]
+        if isinstance(obj, SList) and "arrays" in obj.ghost:
+            return L.heap_slice(self.cx, obj, lo, hi)
         if isinstance(obj, SList) and lo is None and hi is None:
             return self.f_list([obj], {}, None)
         if isinstance(obj, (SStr, str)) :
@@ -875,6 +886,11 @@ class Builtins:
 
     def list_method(self, short, l: SList, pos, kw):
         cx = self.cx
+        if short == "__getitem__":
+            k = pos[0]
+            if isinstance(k, SObj) and k.cls == "slice":
+                return self.getslice(l, k.fields.get("start"), k.fields.get("stop"), k.fields.get("step"))
+            return self.getitem(l, k)
         if short == "append":
             cx.log_write(l, "@items", pos[0])
             L.append(cx, l, pos[0])
@@ -988,6 +1004,20 @@ class Builtins:
         if short == "endswith":
             return SBool(z3.SuffixOf(str_term(pos[0]), str_term(s)))
         raise Unsupported(f"str.{short}")
+
+
+_ARRSUM = z3.Function("arr_sum", z3.ArraySort(z3.IntSort(), z3.IntSort()), z3.IntSort(), z3.IntSort())
+
+
+def arr_sum(A, n):
+    """sum_{j<n} A[j]  (uninterpreted; facts come from the lemma library / explicit unfoldings)"""
+    return _ARRSUM(A, n)
+
+
+def _mentions(t, v) -> bool:
+    if t.eq(v):
+        return True
+    return any(_mentions(c, v) for c in t.children())
 
 
 def _reopaque(cx, v):
